@@ -8,7 +8,9 @@ fragment of a contact group and keeps the group's cells; A2 the rect element map
 width,height <- end - start, rx <- radius (else 0) and the class flags broken/solid <- is_broken,
 filled/nofill <- is_filled.  NOT decided (the core of C05): that the four/eight touching fragments
 accepted by is_rect / is_rounded_rect really bound a drawn box, and that every drawn box is accepted —
-recognition depends on float geometry of merged fragments at run time."""
+recognition depends on float geometry of merged fragments at run time.  A3 (shared with C09.M1): a side
+that contains dashed stretches still merges into one line (can_merge has no condition beyond touching and
+collinearity, the merged line is dashed if any part is), otherwise such boxes are never recognised."""
 import re
 
 from ..common import guards, short, where
@@ -176,6 +178,9 @@ def run(run):
             else:
                 run.bad("C05.A1", "rect-radius", where(b), "the corner radius is `%s` (from an arc of the group: %s)" % (expr_str(r)[:100], okq))
     corners_rule(run)
+    # completeness needs every side to merge into ONE line even when it has dashed stretches (shared with C09.M1)
+    from .c09 import merge_rules
+    merge_rules(run, "C05.A3")
     if fib:
         rets = [strip(r) for r in Expr(prog, fib).returns()]
         calls = sorted(r[1].split("::")[-2] for r in rets if r[0] == "call")
